@@ -963,21 +963,22 @@ def run_uc(case):
     total = n + 800 + 60 * (len(case["rx"]) + len(case["tx"]))
     inst = fair(cdc.expand_edges(case["edges"], total))
     us, ub = edges_at(inst, n)
-    # after the generated phase software keeps popping until nothing is left
+    # after the generated phase software keeps popping (every fifth sys cycle, to the end of the run): the run ends once the PHY
+    # side has handed everything in and both FIFOs have been empty for forty sys cycles
+    sys_total = edges_at(inst, len(inst))[0]
     t = max(max(writes) + 2, us)
-    drain_from = t
-    for _ in range(len(case["rx"]) + 4):
+    while t < sys_total - 4:
         writes[t] = ("ev_pending", 2)
-        t += 6
+        t += 5
     prog = periph.BusProgram(top, writes, {})
     prod = bench.Producer(core.sink, [((b_,), (), 0, 0) for b_ in case["rx"]], case["ps"], garbage_seed=case["g"], until=ub)
     cons = bench.Consumer(core.source, case["cs"], until=ub)
     probe = bench.Probe([core._rxtx.re, core._rxtx.r, core._txfull.status, core.rx_fifo.source.valid, core.rx_fifo.source.ready,
-                         core.rx_fifo.source.data])
-    last_step = t
+                         core.rx_fifo.source.data, core._txempty.status])
 
     def stop(tm):
-        return len(tm.rise["sys"]) > last_step + 30 and prod.done() and len(cons.got) >= 0 and tm.k > n + 200
+        tr_ = probe.trace
+        return (tm.k > n + 100 and prod.done() and len(tr_) > 60 and all(not r_[3] and r_[6] for r_ in tr_[-40:]))
 
     tm, reg = cdc.run(top, {"sys": [prog, probe], "b": [prod, cons]}, inst, ["sys", "b"], case["meta"], stop=stop)
     cyc = tm.k
